@@ -102,6 +102,7 @@ type Sched struct {
 	chooser   Chooser
 	Decisions []Decision
 	Steps     int
+	Reverse   bool
 	MaxSteps  int
 	Now       time.Time
 	Status    Status
@@ -138,6 +139,7 @@ func Run(chooser Chooser, maxSteps int, main func()) *Sched {
 		panic("vrt: nested Run")
 	}
 	s := &Sched{yield: make(chan struct{}), chooser: chooser, MaxSteps: maxSteps, Now: Epoch, chans: map[interface{}]*chanState{}}
+	CondWakeups = 0
 	S = s
 	resetRand()
 	mainT := s.spawn("main", main)
@@ -239,7 +241,20 @@ func (s *Sched) enabledFiltered(skipSuspended bool) []*Thread {
 	if first != nil {
 		en = append([]*Thread{first}, en...)
 	}
+	if s.Reverse {
+		// adversarial default: the thread spawned last runs first, the running thread gets no preference
+		sort.Slice(en, func(i, j int) bool { return en[i].ID > en[j].ID })
+	}
 	return en
+}
+
+// ReverseDefault switches the canonical order of enabled threads to "spawned last first" (and back): a harness uses
+// it to measure the work a piece of code does under an unfavourable schedule.  It is part of the execution (set by
+// the harness body at a fixed point), so explored schedules replay unchanged.
+func ReverseDefault(on bool) {
+	if S != nil {
+		S.Reverse = on
+	}
 }
 
 func (s *Sched) spawn(name string, fn func()) *Thread {
@@ -466,6 +481,10 @@ func (s *Sched) Choices() []int {
 	}
 	return c
 }
+
+// CondWakeups counts the goroutines readied by sync.Cond.Broadcast calls (reset by Run): a deterministic measure of
+// work that the step count of a cooperative schedule does not show.
+var CondWakeups int
 
 // ---- spawn helpers used by the rewritten `go` statements ----
 
